@@ -368,6 +368,13 @@ def parse_matches_pred(path, toks, fname):
     return res
 
 
+UNION_FNS = ["default_scope", "special_tag"]
+
+
+def has_fn(toks, name):
+    return find_seq(toks, ["fn", name, "("]) >= 0
+
+
 def parse_tag_sets():
     """returns (sets: [(coq name, display, [ename], line, file)], preds: {name: [ename]})"""
     src_ts = read(F_TAGSETS)
@@ -435,26 +442,60 @@ def parse_tag_sets():
         rm = set(("html", t) for t in tags)
         return [e for e in base if e not in rm]
 
-    # default_scope: html_default_scope(name) || mathml_text_integration_point(name) || svg_html_integration_point(name)
-    o, c = find_fn(F_TAGSETS, toks_ts, "default_scope")
-    ds_body = norm(toks_ts[o + 1:c])
-    m = re.fullmatch(r"(\w+) \( name \)((?: \|\| \w+ \( name \))*)", ds_body)
-    if not m:
-        fail(F_TAGSETS, toks_ts[o].line, "fn default_scope: body is not a `||` of set predicates: %s" % ds_body[:160])
-    ds_parts = re.findall(r"(\w+) \( name \)", ds_body)
-    ds_line = toks_ts[o].line
+    # predicates written as fns: a `||` of SET(name) and `name == expanded_name!(NS "local")` terms.
+    # default_scope must exist; special_tag is a fn only once the foreign special elements are part of it
+    # (before that it is a declare_tag_set!).
+    union_fns = {}
+    for fname in UNION_FNS:
+        if fname != "default_scope" and not has_fn(toks_ts, fname):
+            continue
+        o, c = find_fn(F_TAGSETS, toks_ts, fname)
+        body = norm(toks_ts[o + 1:c])
+        parts = []
+        for part in body.split(" || "):
+            m1 = re.fullmatch(r"(\w+) \( name \)", part.strip())
+            m2 = re.fullmatch(r'name == expanded_name ! \( (\w+) "([^"]+)" \)', part.strip())
+            if m1:
+                parts.append(("set", m1.group(1)))
+            elif m2:
+                cns(F_TAGSETS, toks_ts[o].line, m2.group(1))
+                parts.append(("one", (m2.group(1), m2.group(2))))
+            else:
+                fail(F_TAGSETS, toks_ts[o].line, "fn %s: body is not a `||` of set predicates: %s" % (fname, body[:160]))
+        union_fns[fname] = (parts, toks_ts[o].line)
+
+    def u_ready(fname):
+        return all(k != "set" or v in known for k, v in union_fns[fname][0])
+
+    def u_build(fname):
+        out_ = []
+        for k, v in union_fns[fname][0]:
+            for e in (known[v] if k == "set" else [v]):
+                if e not in out_:
+                    out_.append(e)
+        return out_
+
+    def u_settle():
+        progress = True
+        while progress:
+            progress = False
+            for fname in union_fns:
+                if fname not in known and u_ready(fname):
+                    known[fname] = u_build(fname)
+                    progress = True
+
     for (idx, name, supr, op, tags, line) in glob:
-        # default_scope becomes known as soon as all its parts are
-        if "default_scope" not in known and all(p in known for p in ds_parts):
-            known["default_scope"] = [e for p in ds_parts for e in known[p]]
+        # a fn predicate becomes known as soon as all its parts are
+        u_settle()
         if name in known:
             fail(F_TAGSETS, line, "tag set %s declared twice" % name)
         known[name] = resolve(F_TAGSETS, line, name, supr, op, tags, {})
         out.append(("ts_" + name, name, known[name], line, F_TAGSETS))
-    if "default_scope" not in known:
-        if not all(p in known for p in ds_parts):
-            fail(F_TAGSETS, ds_line, "fn default_scope refers to an unknown set: %s" % ds_parts)
-        known["default_scope"] = [e for p in ds_parts for e in known[p]]
+    u_settle()
+    for fname in union_fns:
+        if fname not in known:
+            fail(F_TAGSETS, union_fns[fname][1], "fn %s refers to an unknown set: %s" % (fname, union_fns[fname][0]))
+    known["__union_fns__"] = [f for f in UNION_FNS if f in union_fns]
 
     # local sets
     for path in (F_MOD, F_RULES):
@@ -766,9 +807,15 @@ def parse_adjust():
             m1 = re.fullmatch(r'local_name ! \( ("[^"]*") \)', p)
             m2 = re.fullmatch(r'Some \( qualname ! \( "" , ("[^"]*") \) \)', b)
             m3 = re.fullmatch(r'Some \( qualname ! \( ("[^"]*") (\w+) ("[^"]*") \) \)', b)
-            if not m1 or not (m2 or m3):
+            # the struct literal spelled out, for a name with a namespace but no prefix
+            m4 = re.fullmatch(r'Some \( QualName \{ prefix : None , ns : ns ! \( (\w*) \) , local : local_name ! \( ("[^"]*") \) ,? \} \)', b)
+            if not m1 or not (m2 or m3 or m4):
                 fail(F_MOD, pat[0].line, "%s: unknown arm: %s => %s" % (fname, p, b))
-            if m2:
+            if m4:
+                if m4.group(1):
+                    cns(F_MOD, pat[0].line, m4.group(1))
+                q = (None, m4.group(1), m4.group(2)[1:-1])
+            elif m2:
                 q = (None, "", m2.group(1)[1:-1])
             else:
                 cns(F_MOD, pat[0].line, m3.group(2))
@@ -870,11 +917,17 @@ def parse_adjust():
     # --- break-out: where the popping stops
     o, c = find_fn(F_MOD, toks, "unexpected_start_tag_in_foreign_content")
     txt = norm(toks[o + 1:c])
-    m = re.fullmatch(r"self \. unexpected \( & tag \) ; while ! self \. current_node_in \( \| n \| \{ (.*?) \} \) \{ self \. pop \( \) ; \} "
+    # optional second stop condition: the current node is an annotation-xml element that is an HTML integration point
+    ANN = (r"(?P<ann> && ! \( self \. current_node_in \( \| n \| n == expanded_name ! \( mathml \"annotation-xml\" \) \) && "
+           r"self \. sink \. is_mathml_annotation_xml_integration_point \( & self \. current_node \( \) \) \))?")
+    m = re.fullmatch(r"self \. unexpected \( & tag \) ; while ! self \. current_node_in \( \| n \| \{ (.*?) \} \)" + ANN +
+                     r" \{ self \. pop \( \) ; \} "
                      r"self \. step \( self \. mode \. get \( \) , Token :: Tag \( tag \) \)", txt)
     if not m:
         fail(F_MOD, toks[o].line, "unexpected_start_tag_in_foreign_content: body not recognised: %s" % txt[:200])
     stops = []
+    if m.group("ann"):
+        stops.append("annotation-xml-with-encoding")
     for part in m.group(1).split(" || "):
         if part == "* n . ns == ns ! ( html )":
             stops.append("ns:html")
@@ -1239,12 +1292,13 @@ def emit_tagsets(sets, known, uses):
     for (cname, disp, elems, line, path) in sets:
         out.append("(* %s  (%s) *)\nDefinition %s : list ename := %s.\n\n" % (
             disp, path, cname, clist([cename(e) for e in elems])))
-    for p in ("mathml_text_integration_point", "svg_html_integration_point", "default_scope"):
+    fn_preds = ["mathml_text_integration_point", "svg_html_integration_point"] + known["__union_fns__"]
+    for p in fn_preds:
         out.append("(* fn %s  (%s) *)\nDefinition ts_%s : list ename := %s.\n\n" % (
             p, F_TAGSETS, p, clist([cename(e) for e in known[p]])))
     out.append("Definition tag_sets : list (string * list ename) := %s.\n\n" % clist(
         ["(%s, %s)" % (cstr(s[0]), s[0]) for s in sets] +
-        ["(%s, ts_%s)" % (cstr("ts_" + p), p) for p in ("mathml_text_integration_point", "svg_html_integration_point", "default_scope")]))
+        ["(%s, ts_%s)" % (cstr("ts_" + p), p) for p in fn_preds]))
     out.append("(* census of uses: per fn of tree_builder/mod.rs the ordered mentions of tag sets (s:), local names (n:),\n"
                "   expanded names (e:ns:local), namespaces (ns:) and insertion modes (m:); no theorem depends on it *)\n")
     out.append("Definition tagset_uses : list (string * list string) := %s.\n" % clist(
